@@ -69,9 +69,11 @@ type treeProj struct {
 	Def  string `json:"def"`
 }
 type memProj struct {
-	Space bool       `json:"space"`
-	Acl   int        `json:"acl"`
-	Tr    []treeProj `json:"tr"`
+	Space  bool       `json:"space"`
+	Acl    int        `json:"acl"`
+	Tr     []treeProj `json:"tr"`
+	Obs    [][]int    `json:"obs"`
+	ObsAcl int        `json:"obsAcl"`
 }
 type step struct {
 	A     string   `json:"a"` // op | open | deferred | author | reopen
@@ -400,6 +402,9 @@ func (x *runner) stepReopen(s step) error {
 		x.violate("ReopenValid:acl", "BuildAclListWithIdentity fails after a crash: %v", err)
 		return errAbandon
 	}
+	if st, err := readState(x.px.DB); err == nil {
+		x.r.attachObserver(st)
+	}
 	x.compareMem(s)
 	return nil
 }
@@ -545,6 +550,9 @@ func (x *runner) stepOp(s step) error {
 			x.violate("ReopenValid:acl-after-create", "ACL of a freshly created space does not build: %v", err)
 			return errAbandon
 		}
+		if st, err := readState(x.px.DB); err == nil {
+			x.r.attachObserver(st)
+		}
 	}
 	var seq []string
 	for _, c := range calls {
@@ -622,6 +630,10 @@ func (x *runner) stepOp(s step) error {
 		return x.crash(s, pre, cur, snapDir, where, len(calls))
 	}
 	x.checkLive(s, cur, where, opErr)
+	if d := x.r.observerAgrees(cur); d != "" {
+		// one key: the cause is one call site (UpdateEntry notifies inside the caller's transaction)
+		x.violate("ObserverSawUncommitted:headstorage.UpdateEntry", "after %s: %s", where, d)
+	}
 	x.compareDisk(s, cur)
 	x.compareMem(s)
 	if (opErr == nil) != (s.Res == "ok") {
@@ -896,6 +908,18 @@ func (x *runner) compareMem(s step) {
 			x.drift("live ACL head is record %d, spec %d", got, m.Acl)
 		}
 	}
+	if x.r.obs != nil && m.Space {
+		x.r.obs.mu.Lock()
+		for t := 1; t <= x.b.NT && t <= len(m.Obs); t++ {
+			if got, want := fmt.Sprint(x.specIds(x.r.obs.last[x.w.roots[t].Id])), fmt.Sprint(sortedInts(m.Obs[t-1])); got != want {
+				x.drift("observers know heads %s of tree %d, spec %s", got, t, want)
+			}
+		}
+		if h := x.r.obs.last[x.w.payload.AclWithId.Id]; len(h) != 1 || x.w.aclIndex(h[0]) != m.ObsAcl {
+			x.drift("observers know ACL head %v, spec %d", shorts(h), m.ObsAcl)
+		}
+		x.r.obs.mu.Unlock()
+	}
 	for t := 1; t <= x.b.NT && t <= len(m.Tr); t++ {
 		live := x.r.trees[x.w.roots[t].Id]
 		tp := m.Tr[t-1]
@@ -933,59 +957,86 @@ func loadBehaviours(t *testing.T) []*behaviour {
 		w.Behaviour.name = w.Name
 		return []*behaviour{w.Behaviour}
 	}
-	dir := os.Getenv("VERIF_BEHAVIOURS")
+	// VERIF_BEHAVIOURS: one or more directories (':'-separated); VERIF_MAX_BEHAVIOURS: the sample size per
+	// directory (':'-separated, the last one is used for the remaining directories; 0 = everything)
+	var res []*behaviour
+	dirs := strings.Split(os.Getenv("VERIF_BEHAVIOURS"), string(os.PathListSeparator))
+	limits := strings.Split(os.Getenv("VERIF_MAX_BEHAVIOURS"), string(os.PathListSeparator))
+	for i, dir := range dirs {
+		limit := 0
+		if l := limits[min(i, len(limits)-1)]; l != "" {
+			fmt.Sscan(l, &limit)
+		}
+		res = append(res, loadDir(t, dir, limit)...)
+	}
+	return res
+}
+
+func loadFile(t *testing.T, tag, n string) *behaviour {
+	b, err := os.ReadFile(n)
+	if err != nil {
+		t.Fatal(err)
+	}
+	bh := &behaviour{}
+	if err = json.Unmarshal(b, bh); err != nil {
+		t.Fatalf("%s: %v", n, err)
+	}
+	bh.name = tag + "/" + strings.TrimSuffix(filepath.Base(n), ".json")
+	return bh
+}
+
+func loadDir(t *testing.T, dir string, limit int) []*behaviour {
 	names, err := filepath.Glob(filepath.Join(dir, "*.json"))
 	if err != nil || len(names) == 0 {
 		t.Fatalf("no behaviours in %q (%v)", dir, err)
 	}
 	sort.Strings(names)
-	all := make([]*behaviour, 0, len(names))
-	for _, n := range names {
-		b, err := os.ReadFile(n)
-		if err != nil {
-			t.Fatal(err)
+	tag := filepath.Base(dir)
+	var res []*behaviour
+	if limit <= 0 || len(names) <= limit {
+		for _, n := range names {
+			res = append(res, loadFile(t, tag, n))
 		}
-		bh := &behaviour{}
-		if err = json.Unmarshal(b, bh); err != nil {
-			t.Fatalf("%s: %v", n, err)
-		}
-		bh.name = strings.TrimSuffix(filepath.Base(n), ".json")
-		all = append(all, bh)
+		return res
 	}
-	// VERIF_MAX_BEHAVIOURS: a seeded sample that first covers every class of the focus step (the last one:
-	// operation kind, program, fault point, fate, retry), then fills up at random
-	limit := vfutil.EnvInt("VERIF_MAX_BEHAVIOURS", 0)
-	if limit <= 0 || len(all) <= limit {
-		return all
-	}
-	rnd := vfutil.Rand()
-	rnd.Shuffle(len(all), func(i, j int) { all[i], all[j] = all[j], all[i] })
-	seen := map[string]bool{}
-	var res, rest []*behaviour
-	for _, bh := range all {
+	// a seeded sample that first covers every class of the focus step (the last one: operation kind,
+	// program, fault point, fate, retry, and the operation before it), then fills up at random.
+	// Two passes, so that a large directory is never held in memory.
+	keys := make([]string, len(names))
+	for i, n := range names {
+		bh := loadFile(t, tag, n)
 		f := bh.Steps[len(bh.Steps)-1]
 		k := fmt.Sprintf("%s|%v|%v|%d|%s|%v|%d", f.Kind, f.Snap, f.Prog, f.Fat, f.Fate, f.Retry, len(f.New))
 		// what a fault broke shows in the next operation: the class also names the operation before
-		for i := len(bh.Steps) - 2; i >= 0; i-- {
-			if p := bh.Steps[i]; p.A == "op" {
+		for j := len(bh.Steps) - 2; j >= 0; j-- {
+			if p := bh.Steps[j]; p.A == "op" {
 				k += fmt.Sprintf("|after %s %v %d %s %d", p.Kind, p.Snap, p.Fat, p.Fate, len(p.Prog))
 				break
 			}
 		}
-		if !seen[k] && len(res) < limit {
-			seen[k] = true
-			res = append(res, bh)
+		keys[i] = k
+	}
+	order := vfutil.Rand().Perm(len(names))
+	seen := map[string]bool{}
+	var pick, rest []int
+	for _, i := range order {
+		if !seen[keys[i]] && len(pick) < limit {
+			seen[keys[i]] = true
+			pick = append(pick, i)
 		} else {
-			rest = append(rest, bh)
+			rest = append(rest, i)
 		}
 	}
-	for _, bh := range rest {
-		if len(res) >= limit {
+	for _, i := range rest {
+		if len(pick) >= limit {
 			break
 		}
-		res = append(res, bh)
+		pick = append(pick, i)
 	}
-	sort.Slice(res, func(i, j int) bool { return res[i].name < res[j].name })
+	sort.Ints(pick)
+	for _, i := range pick {
+		res = append(res, loadFile(t, tag, names[i]))
+	}
 	return res
 }
 
@@ -1066,7 +1117,7 @@ func TestReplay(t *testing.T) {
 	}
 	close(jobs)
 	wg.Wait()
-	if _, replaying := vfutil.ReplayFile(); !replaying {
+	if _, replaying := vfutil.ReplayFile(); !replaying && os.Getenv("VERIF_SKIP_SAMEHANDLE") == "" {
 		if err := spaceRetrySameHandle(rep, w.world, base); err != nil {
 			t.Fatal(err)
 		}
